@@ -111,6 +111,7 @@ fn inv<S: WaitableOp>(op: &WaitableOperation<S>) {
         if let Some(e) = host::entry_of(t, W) {
             holders += 1;
             vassert!(e.ptr as usize == slot, "C18: a task holds a pointer that is not this operation's completion slot");
+            vassert!(host::joined_set_of(W) == host::MOCK_SET_BASE + t as u32, "C18: registered with a task but not a member of that task's waitable set (its completion could never be delivered)");
             if has_task {
                 vassert!(task_ptr == t + 1 && believes == Some(W), "C18: registered with a task the operation does not record as registered (it would never be unregistered)");
             }
@@ -118,6 +119,9 @@ fn inv<S: WaitableOp>(op: &WaitableOperation<S>) {
         t += 1;
     }
     vassert!(holders <= 1, "C18: registered with more than one task at once");
+    if holders == 0 {
+        vassert!(host::joined_set_of(W) == 0, "C18: member of a waitable set without being registered with its task");
+    }
     if peek::code_pending(op) {
         vassert!(holders == 0, "C18: a delivered completion removes the registration");
     }
